@@ -1,6 +1,7 @@
 package main
 
 import (
+	"context"
 	"encoding/json"
 	"fmt"
 	"os"
@@ -324,8 +325,17 @@ func (x *Exec) writeReplay(dir, prop string, s *OblSummary) string {
 			break
 		}
 		q := dumpQuery(dir, fmt.Sprintf("%s-%d", name, i), f.Query)
-		checks = append(checks, map[string]interface{}{"status": f.Status, "backend": f.Backend, "position": f.Obl.Pos, "path": f.Obl.Path,
-			"solver_output": firstLines(f.Output, 30), "query": q, "goal": f.Obl.Goal})
+		entry := map[string]interface{}{"status": f.Status, "backend": f.Backend, "position": f.Obl.Pos, "path": f.Obl.Path,
+			"solver_output": firstLines(f.Output, 30), "query": q, "goal": trunc(f.Obl.Goal, 2000)}
+		if i == 0 && !f.Obl.Synt && f.Query != "" {
+			// candidate model of the negated obligation (a hint, not a confirmed input): z3 with models on, short timeout
+			mq := strings.Replace(f.Query, "(set-option :produce-models false)", "(set-option :produce-models true)", 1) + "(get-model)\n"
+			_, out, _ := runSolver(context.Background(), solverCmd("z3", 4000), mq, 6000)
+			if strings.Contains(out, "define-fun") {
+				entry["candidate_model_unconfirmed"] = firstLines(out, 80)
+			}
+		}
+		checks = append(checks, entry)
 	}
 	doc := map[string]interface{}{
 		"property":            prop,
